@@ -5,6 +5,9 @@ simulation between two state machines, `forRange`.
 import OdlModel.Model.Solvers
 import Mathlib.Logic.Function.Iterate
 import Mathlib.Data.List.Range
+import Mathlib.Algebra.Module.Basic
+import Mathlib.Algebra.Order.Ring.Defs
+import Mathlib.Tactic.Ring
 
 namespace OdlModel.Solvers
 
@@ -19,6 +22,12 @@ theorem runLog_eq {S O : Type} (step : S → S) (obs : S → O) (n : Nat) (s : S
     simp only [runLog, ih, Function.iterate_succ, Function.comp]
     refine Prod.ext rfl ?_
     simp [List.range_succ_eq_map, List.map_map, Function.comp_def]
+
+/-- The driver's loop `iter` is Mathlib's `step^[n]` used in the theorem statements. -/
+theorem iter_eq {S : Type} (step : S → S) (n : Nat) (s : S) : iter step n s = step^[n] s := by
+  induction n generalizing s with
+  | zero => rfl
+  | succ n ih => simp only [iter, ih, Function.iterate_succ, Function.comp]
 
 /-- A relation preserved by a pair of steps is preserved by their iterates. -/
 theorem iterate_sim {S T : Type} (f : S → S) (g : T → T) (R : S → T → Prop)
@@ -54,5 +63,46 @@ theorem forRange_inv {S : Type} (f : Nat → S → S) (I : S → Prop)
   induction m with
   | zero => exact h
   | succ m ih => rw [forRange_succ]; exact hstep _ _ ih
+
+/-- Resumption: if the observable part `obs` of the state determines the observable part
+after a step, then running `n` steps, rebuilding a state from the observables only
+(`reinit`, e.g. a fresh call of the solver with the returned `x`) and running `m` more steps
+gives the same observables as `n + m` steps at once. -/
+theorem resume_generic {S X : Type} (step : S → S) (obs : S → X) (reinit : X → S)
+    (hobs : ∀ s t, obs s = obs t → obs (step s) = obs (step t))
+    (hre : ∀ x, obs (reinit x) = x) (n m : Nat) (s : S) :
+    obs (step^[m] (reinit (obs (step^[n] s)))) = obs (step^[n + m] s) := by
+  rw [Nat.add_comm, Function.iterate_add_apply]
+  exact iterate_sim step step (fun a b => obs a = obs b) hobs m _ _ (hre _)
+
+theorem iterate_count {S : Type} (f : S → S) (len : S → Nat) (c : Nat)
+    (h : ∀ s, len (f s) = len s + c) (n : Nat) (s : S) : len (f^[n] s) = len s + n * c := by
+  induction n generalizing s with
+  | zero => simp
+  | succ n ih => simp only [Function.iterate_succ, Function.comp, ih, h]; ring
+
+theorem forRange_count {S : Type} (f : Nat → S → S) (len : S → Nat) (c : Nat)
+    (h : ∀ i s, len (f i s) = len s + c) (m : Nat) (s : S) :
+    len (forRange f m s) = len s + m * c := by
+  induction m with
+  | zero => simp [forRange_zero]
+  | succ m ih => rw [forRange_succ, h, ih]; ring
+
+/-- convergence test of `steepest_descent` at `x` -/
+def sdConverged {K V : Type} [Field K] [LinearOrder K] (P : SteepestP K V) (x : V) : Prop :=
+  absK (-(P.nsq (P.grad x))) < P.tol
+
+theorem sd_inv {K V : Type} [Field K] [LinearOrder K] [AddCommGroup V] [Module K V]
+    (P : SteepestP K V) (s : SteepestS V)
+    (h : s.stopped = true → sdConverged P s.x) :
+    (P.step s).stopped = true → sdConverged P (P.step s).x := by
+  unfold SteepestP.step
+  by_cases h0 : (s.stopped || s.failed) = true
+  · simp only [h0, if_true]; exact h
+  · simp only [h0]
+    by_cases hc : absK (-(P.nsq (P.grad s.x))) < P.tol
+    · simp only [hc, if_true]; intro _; exact hc
+    · simp only [hc, if_false]
+      cases P.ls s.x (-(P.grad s.x)) (-(P.nsq (P.grad s.x))) <;> simp_all
 
 end OdlModel.Solvers
